@@ -127,6 +127,74 @@ def lookup_const(src, name):
     return [x.strip().strip('"') for x in m.group(1).split(",") if x.strip()]
 
 
+# value level: shared by the container impls and the derive output (gen_derive.py)
+VAL_METHODS = dict(METHODS)
+VAL_METHODS.update({
+    ("AnyRes", "map_err"): {"kind": "lamfmt", "fmt": "(Except.mapError {1} {0})", "ret": "AnyRes", "err": "Traversal"},
+    ("OptSelf", "as_ref"): {"kind": "id", "ret": "OptSelf"},
+    ("OptSelf", "as_mut"): {"kind": "id", "ret": "OptSelf"},
+    ("OptSelf", "ok_or"): {"kind": "fmt", "fmt": "(match {0} with | some v => Except.ok v | none => Except.error {1})",
+                           "err": "Traversal", "ret": "OptRes"},
+})
+OPS = {"serialize_by_key": ("Ser", False, "Except (Error S) Nat", "{S : Type} "),
+       "deserialize_by_key": ("De", True, "Except (Error D) Nat", "{D : Type} "),
+       "ref_any_by_key": ("Ref", False, "Except Traversal Unit", ""),
+       "mut_any_by_key": ("Mut", True, "Except Traversal Unit", "")}
+
+def child_sig(tag, mutating, res_ty, n=None):
+    def one(name):
+        return (f"({name} : C → K → {res_ty} × C)" if mutating else f"({name} : C → K → {res_ty})")
+    if n is None:
+        return one("child" + tag)
+    return " ".join(one(f"child{tag}{i}") for i in range(n))
+
+def rewrite_indexed(b, method, per_index, fieldmap=None):
+    """`self[index].m(keys, x)` / `self.<i>.m(keys, x)` / `self.<field>.m(keys, x)` -> pseudo call `at_m(<index>)`"""
+    def go(e):
+        if isinstance(e, tuple):
+            if e and e[0] == "mcall" and e[2] == method:
+                recv = e[1]
+                if recv[0] == "index" and recv[1] == ("path", ["self"]):
+                    return ("call", ("path", ["at_" + method]), [go(recv[2])])
+                if recv[0] == "field" and recv[1] == ("path", ["self"]) and recv[2].isdigit():
+                    return ("call", ("path", [f"at_{method}_{recv[2]}"]), [("num", int(recv[2]))])
+                if recv[0] == "field" and recv[1] == ("path", ["self"]) and fieldmap and recv[2] in fieldmap:
+                    i = fieldmap[recv[2]]
+                    return ("call", ("path", [f"at_{method}_{i}"]), [("num", i)])
+            return tuple(go(x) for x in e)
+        if isinstance(e, list):
+            return [go(x) for x in e]
+        return e
+    return go(b)
+
+def value_fn_(consts, key_fns, lean, body, method, n_children, extra_sig="", doc="", fieldmap=None, same_child=False,
+              impl_ns="Impls"):
+    tag, mutating, res_ty, tparams = OPS[method]
+    b = rewrite_indexed(body, method, n_children, fieldmap)
+    tb = tables(0, dict(consts, N="N"), dict(key_fns, **{"Traversal::increment": ("Traversal.increment", "pure")}))
+    tb.methods = VAL_METHODS
+    tb.effects = {("mcall", "keys", "next"): {"fmt": "(keysNext keys {0})", "pair": "keys", "err": "Traversal"}}
+    tb.try_into = {"Traversal": "(Error.Traversal {0})"} if tag in ("Ser", "De") else {}
+    tb.rettags = {}
+    anytag = "AnyRes" if tag in ("Ref", "Mut") else None
+    if n_children is None:
+        names = {"at_" + method: "child" + tag}
+    elif same_child:
+        names = {f"at_{method}_{i}": f"child{tag}" for i in range(n_children)}
+    else:
+        names = {f"at_{method}_{i}": f"child{tag}{i}" for i in range(n_children)}
+    for pseudo, child in names.items():
+        if mutating:
+            tb.effects[("call", pseudo)] = {"fmt": f"(applyAt {child} self {{0}} keys)", "ppair": "self", "ret": anytag}
+        else:
+            tb.effects[("call", pseudo)] = {"fmt": f"(applyAtR {child} self {{0}} keys)", "pval": True, "ret": anytag}
+    tb.structs = {"Self": "List C"}
+    sig = (f"{{K C : Type}} {tparams}(keysNext : K → KeyLookup → Except Traversal Nat × K) {extra_sig}"
+           f"{child_sig(tag, mutating, res_ty, None if same_child else n_children)} (self : List C) (keys : K)")
+    return translate_fn(b, lean, sig, res_ty, tb, "panic", mut_self=mutating, doc=doc)
+
+
+
 def generate(impls_rs, key_rs, tree_rs):
     src = M.strip_comments(open(impls_rs).read())
     tsrc = M.strip_comments(open(tree_rs).read())
@@ -203,70 +271,8 @@ def generate(impls_rs, key_rs, tree_rs):
         out.append(f"/-- `traverse_all` of `{rust}`: children (as indices into its type parameters) and lookup -/")
         out.append(f"def {rust}.children : List Nat := {kids}")
         out.append(f"def {rust}.lookup : KeyLookup := {const}\n")
-    # ------------------------------------------------------------ value level: arrays, tuples, Option
-    VAL_METHODS = dict(METHODS)
-    VAL_METHODS.update({
-        ("AnyRes", "map_err"): {"kind": "lamfmt", "fmt": "(Except.mapError {1} {0})", "ret": "AnyRes", "err": "Traversal"},
-        ("OptSelf", "as_ref"): {"kind": "id", "ret": "OptSelf"},
-        ("OptSelf", "as_mut"): {"kind": "id", "ret": "OptSelf"},
-        ("OptSelf", "ok_or"): {"kind": "fmt", "fmt": "(match {0} with | some v => Except.ok v | none => Except.error {1})",
-                               "err": "Traversal", "ret": "OptRes"},
-    })
-    OPS = {"serialize_by_key": ("Ser", False, "Except (Error S) Nat", "{S : Type} "),
-           "deserialize_by_key": ("De", True, "Except (Error D) Nat", "{D : Type} "),
-           "ref_any_by_key": ("Ref", False, "Except Traversal Unit", ""),
-           "mut_any_by_key": ("Mut", True, "Except Traversal Unit", "")}
-
-    def child_sig(tag, mutating, res_ty, n=None):
-        def one(name):
-            return (f"({name} : C → K → {res_ty} × C)" if mutating else f"({name} : C → K → {res_ty})")
-        if n is None:
-            return one("child" + tag)
-        return " ".join(one(f"child{tag}{i}") for i in range(n))
-
-    def rewrite_indexed(b, method, per_index, fieldmap=None):
-        """`self[index].m(keys, x)` / `self.<i>.m(keys, x)` / `self.<field>.m(keys, x)` -> pseudo call `at_m(<index>)`"""
-        def go(e):
-            if isinstance(e, tuple):
-                if e and e[0] == "mcall" and e[2] == method:
-                    recv = e[1]
-                    if recv[0] == "index" and recv[1] == ("path", ["self"]):
-                        return ("call", ("path", ["at_" + method]), [go(recv[2])])
-                    if recv[0] == "field" and recv[1] == ("path", ["self"]) and recv[2].isdigit():
-                        return ("call", ("path", [f"at_{method}_{recv[2]}"]), [("num", int(recv[2]))])
-                    if recv[0] == "field" and recv[1] == ("path", ["self"]) and fieldmap and recv[2] in fieldmap:
-                        i = fieldmap[recv[2]]
-                        return ("call", ("path", [f"at_{method}_{i}"]), [("num", i)])
-                return tuple(go(x) for x in e)
-            if isinstance(e, list):
-                return [go(x) for x in e]
-            return e
-        return go(b)
-
     def value_fn(lean, body, method, n_children, extra_sig="", doc="", fieldmap=None, same_child=False):
-        tag, mutating, res_ty, tparams = OPS[method]
-        b = rewrite_indexed(body, method, n_children, fieldmap)
-        tb = tables(0, dict(consts, N="N"), dict(key_fns, **{"Traversal::increment": ("Traversal.increment", "pure")}))
-        tb.methods = VAL_METHODS
-        tb.effects = {("mcall", "keys", "next"): {"fmt": "(keysNext keys {0})", "pair": "keys", "err": "Traversal"}}
-        tb.try_into = {"Traversal": "(Error.Traversal {0})"} if tag in ("Ser", "De") else {}
-        tb.rettags = {}
-        anytag = "AnyRes" if tag in ("Ref", "Mut") else None
-        if n_children is None:
-            names = {"at_" + method: "child" + tag}
-        elif same_child:
-            names = {f"at_{method}_{i}": f"child{tag}" for i in range(n_children)}
-        else:
-            names = {f"at_{method}_{i}": f"child{tag}{i}" for i in range(n_children)}
-        for pseudo, child in names.items():
-            if mutating:
-                tb.effects[("call", pseudo)] = {"fmt": f"(applyAt {child} self {{0}} keys)", "ppair": "self", "ret": anytag}
-            else:
-                tb.effects[("call", pseudo)] = {"fmt": f"(applyAtR {child} self {{0}} keys)", "pval": True, "ret": anytag}
-        tb.structs = {"Self": "List C"}
-        sig = (f"{{K C : Type}} {tparams}(keysNext : K → KeyLookup → Except Traversal Nat × K) {extra_sig}"
-               f"{child_sig(tag, mutating, res_ty, None if same_child else n_children)} (self : List C) (keys : K)")
-        return translate_fn(b, lean, sig, res_ty, tb, "panic", mut_self=mutating, doc=doc)
+        return value_fn_(consts, key_fns, lean, body, method, n_children, extra_sig, doc, fieldmap, same_child)
 
     for trait, hdr_a in (("TreeSerialize", r"<T: TreeSerialize, const N: usize> TreeSerialize for \[T; N\]"),
                          ("TreeDeserialize", r"<'de, T: TreeDeserialize<'de>, const N: usize> TreeDeserialize<'de> for \[T; N\]"),
